@@ -30,6 +30,7 @@ type ProxyOpts struct {
 	ConnectTimeout time.Duration
 	ConnLimit      uint32
 	Seeds          []string // seed host addresses
+	BackupSeeds    []string // further hosts of type Backup
 	Name           string
 }
 
@@ -93,6 +94,9 @@ func StartProxy(o ProxyOpts) (*Proxy, error) {
 	hosts := make([]*host.Host, len(o.Seeds))
 	for i, a := range o.Seeds {
 		hosts[i] = host.New(a)
+	}
+	for _, a := range o.BackupSeeds {
+		hosts = append(hosts, host.NewWithType(a, host.TypeBackup))
 	}
 	statpurge.Sweep()
 	p, err := proc.New(name, cfg, hosts)
